@@ -224,6 +224,8 @@ def nontrivial (kv : List (String × String)) : Bool :=
     look kv "lock" == "1"
 
 def runCase (id : String) (kv : List (String × String)) (cache : Cache) : String × Cache :=
+  -- a case that stalled twice (machine stalled, wall-clock limit hit) carries no verdict
+  if look kv "timing" == "1" then (s!"{id} kind={look kv "kind"} corr=skip:timing variant=both judge=inconclusive nontrivial=0", cache) else
   let (o, bad) := outcomeOfReal kv
   let j := judgeStr (look kv "lock" == "1") o bad
   let nt := if nontrivial kv then "1" else "0"
